@@ -107,20 +107,104 @@ def native_search(tier="quick"):
     return None, n
 
 
+FAULTS = [ConnectionResetError("reset by peer"), BrokenPipeError("broken pipe"), OSError("device gone"), TimeoutError("timed out")]
+LINES = ["1;1;1;0;0;20.5\n", "255;255;3;0;4;7\n", "1;1;1;0;47;é ü\n", "\n"]
+
+
+def native_faults():
+    """'all fault positions (connect, read, write, close)': a real StreamTransport over a scripted reader / writer whose calls raise
+    an OS-level error at one chosen position.  Every such error must come out as a transport error (be absorbed by disconnect),
+    every write that succeeds must have put exactly the UTF-8 bytes of its line on the stream, in call order."""
+    native.import_repo()
+    from aiomysensors.exceptions import TransportError
+    from aiomysensors.transport import StreamTransport
+    n = 0
+
+    def outcome(coro):
+        try:
+            return ("ok", asyncio.run(coro))
+        except TransportError as e:
+            return ("transport-error", type(e).__name__)
+        except Exception as e:  # noqa: BLE001
+            return ("OTHER", type(e).__name__)
+
+    for fault in FAULTS:
+        for position in ("open", "writer.write", "writer.drain", "writer.close", "writer.wait_closed", "reader.readuntil", None):
+            sink = []
+
+            def fail(where, position=position, fault=fault):
+                if where == position:
+                    raise fault
+
+            class Writer:
+                def write(self, data):
+                    fail("writer.write")
+                    sink.append(bytes(data))
+
+                async def drain(self):
+                    fail("writer.drain")
+
+                def close(self):
+                    fail("writer.close")
+
+                async def wait_closed(self):
+                    fail("writer.wait_closed")
+
+            class Reader:
+                async def readuntil(self, sep=b"\n"):
+                    fail("reader.readuntil")
+                    return b"1;1;1;0;0;20.5\n"
+
+            class Fake(StreamTransport):
+                async def _open_connection(self):
+                    fail("open")
+                    return Reader(), Writer()
+
+            t = Fake()
+            script = [("write-before-connect", lambda: t.write(LINES[0])), ("read-before-connect", lambda: t.read()), ("connect", lambda: t.connect())]
+            script += [(f"write[{i}]", (lambda line=line: t.write(line))) for i, line in enumerate(LINES)]
+            script += [("read", lambda: t.read()), ("disconnect", lambda: t.disconnect())]
+            accepted = []
+            for step, call in script:
+                if position == "open" and step not in ("write-before-connect", "read-before-connect", "connect", "disconnect"):
+                    continue
+                kind, val = outcome(call())
+                n += 1
+                faulty = (position is not None and {"connect": "open", "read": "reader.readuntil"}.get(step) == position) or (step.startswith("write[") and position in ("writer.write", "writer.drain"))
+                want = "transport-error" if step.endswith("before-connect") or faulty else "ok"
+                if kind != want:
+                    return {"fault": f"{type(fault).__name__} raised by {position}", "step": step, "observed": f"{kind}: {val}", "expected": want}, n
+                if step.startswith("write[") and kind == "ok":
+                    accepted.append(LINES[int(step[6:-1])].encode())
+            if position != "writer.drain" and sink != accepted:
+                return {"fault": f"{type(fault).__name__} raised by {position}", "observed": f"bytes on the stream {sink}", "expected": f"{accepted}"}, n
+    return None, n
+
+
 def replay(world, ob):
-    f, n = native_search()
-    return dict(f, confirmed=True, native_runs=n) if f else {"confirmed": False, "native_runs": n}
+    f, n = native_faults() if any(w in ob.get("unit", "") for w in (".write", ".connect", ".disconnect")) else (None, 0)
+    if f:
+        return dict(f, confirmed=True, native_runs=n)
+    f, n2 = native_search()
+    if not f:
+        f, n = native_faults()
+    return dict(f, confirmed=True, native_runs=n + n2) if f else {"confirmed": False, "native_runs": n + n2}
 
 
 def bounded(world, tier, seed, rep):
     f, n = native_search(tier)
-    return {"label": "bounded", "scope": "9 byte streams (valid/invalid UTF-8, with/without final newline, over-long) x every 2-cut chunking of the short ones, through a real asyncio.StreamReader",
-            "evaluations": n, "native_failure": f}
+    f2, n2 = native_faults()
+    return {"label": "bounded", "scope": "9 byte streams (valid/invalid UTF-8, with/without final newline, over-long) x every 2-cut chunking of the short ones, through a real asyncio.StreamReader; "
+            "4 OS-level errors x 6 fault positions (open, write, drain, close, wait_closed, readuntil) over a scripted connect / 4 writes / read / disconnect",
+            "evaluations": n + n2, "native_failure": f or f2}
 
 
 def bounded_search(world, unit_name):
     f, n = native_search()
-    return [dict(f, clause="C17/native-stream")] if f else []
+    if f:
+        return [dict(f, clause="C17/native-stream")]
+    f, n = native_faults()
+    return [dict(f, clause="C17/native-faults")] if f else []
 
 
 def rebuild_inlined(world, failing_helpers):
